@@ -654,6 +654,45 @@ def shared_state_rules(fb, R):
 
 # ------------------------------------------------------------------------------------------------ offsets
 
+def _is_chunk_size(fn, nid, X, cvs, depth=0):
+    """expression is the number of bytes of the chunk being returned: size()/length() of the returned string, the count variable of a
+    pull call, or a local initialised from one of these."""
+    n = scn(fn, nid)
+    if n is None or depth > 3:
+        return False
+    if n.get('k') == 'call' and X is not None and string_call_on(fn, n, X, {'size', 'length'}):
+        return True
+    if n.get('k') == 'var' and n.get('vk') == 'local':
+        if n['d'] in cvs:
+            return True
+        a = resolve_alias(fn, n['id'], depth=1)
+        return a is not None and a['id'] != n['id'] and _is_chunk_size(fn, a['id'], X, cvs, depth + 1)
+    return False
+
+
+def _position_member(fn, nid, X, cvs, depth=0):
+    """If the expression denotes "the object's own cursor, possibly advanced by this chunk" -- the this-member F itself, a local
+    initialised from such an expression and not assigned otherwise, or <such an expression> + <chunk size> -- return F's qualified
+    name, else None."""
+    n = scn(fn, nid)
+    if n is None or depth > 6:
+        return None
+    if n.get('k') == 'member' and n.get('field') and fn.is_this_member(n['id']):
+        return n['q']
+    if n.get('k') == 'var' and n.get('vk') == 'local':
+        a = resolve_alias(fn, n['id'], depth=1)
+        if a is None or a['id'] == n['id']:
+            return None
+        return _position_member(fn, a['id'], X, cvs, depth + 1)
+    if n.get('k') == 'binop' and n.get('op') == '+':
+        for base, add in ((n['lhs'], n['rhs']), (n['rhs'], n['lhs'])):
+            if _is_chunk_size(fn, add, X, cvs):
+                f = _position_member(fn, base, X, cvs, depth + 1)
+                if f is not None:
+                    return f
+    return None
+
+
 def offset_rules(fb, R):
     """O1: what a read() override reports through Decompressor::set_offset() is a position in the compressed file (Reader::offset()
     is compared with Reader::file_size()): the value of gzoffset / ftell / lseek on a handle the object owns, or -- for a class that
@@ -668,6 +707,7 @@ def offset_rules(fb, R):
             identity = [p for (_c, p) in pull_calls(fb, fn)]
             identity = bool(identity) and all(p.name == 'read' for p in identity)
             X = returned_local(fn)
+            cvs = {assigned_from(fn, pc) for (pc, _p) in pull_calls(fb, fn)} - {None}
             bad = None
             detail = []
             for c in sets:
@@ -683,19 +723,22 @@ def offset_rules(fb, R):
                 elif E.is_extern_c(a) and a['q'] in OFFSET_UNCOMPRESSED:
                     bad = (c, '%s is the position in the UNCOMPRESSED data: the reported offset runs past the size of the compressed file '
                               '(use gzoffset)' % a['q'])
-                elif a.get('k') == 'member' and a.get('field') and fn.is_this_member(a['id']) and identity:
-                    fq = a['q']
+                elif identity and _position_member(fn, c['args'][0], X, cvs) is not None:
+                    # a cursor kept by the object itself: <member>, or a local copy of it, advanced by the bytes of this chunk
+                    fq = _position_member(fn, c['args'][0], X, cvs)
                     stores = [m for m in fn.all_nodes() if (m.get('k') == 'assign' or (m.get('k') == 'unop' and m.get('op') in ('++', '--')))
                               and E.carrier_of(fn, m.get('lhs', m.get('sub'))) == ('field', fq)]
-                    okst = bool(stores)
+                    okst = True
                     for m in stores:
-                        r = fn.sn(m['rhs']) if m.get('k') == 'assign' else None
-                        if not (m.get('k') == 'assign' and m.get('op') == '+=' and r is not None and X is not None
-                                and string_call_on(fn, r, X, {'size', 'length'})):
-                            okst = False
+                        if m.get('k') == 'assign' and m.get('op') == '+=' and _is_chunk_size(fn, m['rhs'], X, cvs):
+                            continue
+                        if m.get('k') == 'assign' and m.get('op') == '=' and _position_member(fn, m['rhs'], X, cvs) == fq:
+                            continue
+                        okst = False
                     if not okst:
-                        bad = (c, 'the member %s is not simply advanced by the size of each returned chunk' % a.get('name'))
-                    detail.append('%s += chunk.size()' % a.get('name'))
+                        bad = (c, 'the member %s is stored with something other than its old value advanced by the size of the returned chunk'
+                                  % fq.rsplit('::', 1)[-1])
+                    detail.append('%s advanced by the chunk size' % fq.rsplit('::', 1)[-1])
                 elif E.is_extern_c(a):
                     R.broken('%s (%s): set_offset is fed from %s, which is not in the offset-source table' % (fn.q, fn.loc(c['id']), a['q']))
                 else:
